@@ -58,6 +58,12 @@ func (f *fakeIDP) serveDiscovery(w http.ResponseWriter, r *http.Request) bool {
 	}
 	f.discGets[r.URL.Path]++
 	a, ok := f.disc[r.URL.Path]
+	if r.URL.RawQuery != "" {
+		// documents published under one path and told apart by the query (a policy or tenant selector)
+		if aq, okq := f.disc[r.URL.Path+"?"+r.URL.RawQuery]; okq {
+			a, ok = aq, true
+		}
+	}
 	f.mu.Unlock()
 	if !ok {
 		w.WriteHeader(404)
